@@ -443,6 +443,44 @@ def negohStep (name : Option String) (st : Option Supported) (tok : String) : Op
     (p.1, s!"opt={if p.2.optionsSent then 1 else 0},startup={p.2.nego.startupOpt.getD "-"},kept={p.2.nego.keep},qflag={reqFlag comp .register},body=ok")
   | _ => (st, "bad-step")
 
+/-! op `negos <codec> <numconns> <step>…` — the same history through a real Session's host pool:
+    `a<sup>` the node advertises <sup> from now on · `s` the pool fills · `k<i>` the i-th live connection
+    is lost and the pool refills. Answer after `s` / `k`: the live connections' observations by class. -/
+
+structure NegosSt where
+  adv     : Supported
+  live    : List ConnObs
+  started : Bool
+
+def obsString (o : ConnObs) : String :=
+  let idc : Codec := { enc := fun x => .ok x, dec := fun x => .ok x }
+  let comp := if o.nego.keep then some idc else none
+  s!"opt={if o.optionsSent then 1 else 0},startup={o.nego.startupOpt.getD "-"},kept={o.nego.keep},qflag={reqFlag comp .register}"
+
+def negosShow (live : List ConnObs) : String :=
+  let yes := live.filter (·.nego.keep)
+  let no := live.filter (fun o => !o.nego.keep)
+  let cls := fun (l : List ConnObs) => match l with
+    | [] => ""
+    | o :: _ => s!":[{obsString o}]x{l.length}"
+  s!"live={live.length}{cls yes}{cls no}"
+
+def negosStep (name : Option String) (numConns : Nat) (s : NegosSt) (tok : String) : NegosSt × String :=
+  match tok.toList with
+  | 'a' :: rest => ({ s with adv := parseSupported (String.ofList rest) }, "ok")
+  | ['s'] =>
+    if s.started then (s, "bad-step") else
+    let live := runHist .perConn name none (List.replicate numConns s.adv)
+    ({ s with live := live, started := true }, negosShow live)
+  | 'k' :: rest =>
+    match (String.ofList rest).toNat? with
+    | some i =>
+      if !s.started || i ≥ s.live.length then (s, "bad-step") else
+      let live := s.live.eraseIdx i ++ runHist .perConn name none [s.adv]
+      ({ s with live := live }, negosShow live)
+    | none => (s, "bad-step")
+  | _ => (s, "bad-step")
+
 def step (_ : Unit) (ws : List String) : Unit × String :=
   ((), match ws with
   | ["req", kind, comp, ver, extra, stream, body, encres, _, _] =>
@@ -528,6 +566,10 @@ def step (_ : Unit) (ws : List String) : Unit × String :=
   | "rx" :: codec :: sup :: sArg :: rArg :: steps => rxOp codec sup sArg rArg steps
   | "negoh" :: codec :: steps =>
     runSteps (negohStep (if codec == "none" then none else some codec)) none steps
+  | "negos" :: codec :: nc :: steps =>
+    match nc.toNat? with
+    | some n => runSteps (negosStep (if codec == "none" then none else some codec) n) { adv := [], live := [], started := false } steps
+    | none => "bad-op"
   | "held" :: _ :: toks => runSteps heldStep St.init toks
   | "flight" :: _ :: _ :: toks => runSteps flightStep { st := St.init, reqs := [] } toks
   | _ => "bad-op")
